@@ -97,27 +97,35 @@ mut("c07-dict-keeps-caller-dict", "C07", "d42/declaration/types/_dict_schema.py"
     "        if all((not isinstance(k, optional)) and (not is_ellipsis(k)) for k in keys):\n            return self.__class__(self.props.update(keys=_KeysView(keys)))\n        return self.__class__(self.props.update(keys=real_keys))")
 mut("c07-add-mutates-self", "C07", "d42/declaration/types/_dict_schema.py", "        merged_keys = {**self_keys, **other_keys}",
     "        merged_keys = self_keys\n        merged_keys.update(other_keys)")
-mut("c07-validation-result-shared", "C07", "d42/validation/_validation_result.py", "    def __init__(self, errors: Optional[List[ValidationError]] = None) -> None:\n        self._errors = errors if (errors is not None) else []",
-    "    def __init__(self, errors: Optional[List[ValidationError]] = _SHARED) -> None:\n        self._errors = errors if (errors is not None) else []")
 mut("c07-make-required-inplace", "C07", "d42/utils/_make_required.py", "        updated_keys = {}\n        for key, (val, is_optional) in props_keys.items():\n            updated_keys[key] = (val, False if (key in keys) else is_optional)",
     "        updated_keys = props_keys\n        for key, (val, is_optional) in list(props_keys.items()):\n            updated_keys[key] = (val, False if (key in keys) else is_optional)")
 mut("c07-list-aliasing-regression", "C07", "d42/declaration/types/_list_schema.py", "elements=list(elements_or_type)", "elements=elements_or_type", "the original defect")
 mut("c07-substitutor-writes-elements", "C07", SUB, "            for val in value:\n                if is_ellipsis(val):\n                    element = val\n                else:\n                    element = schema.props.type.__accept__(self, value=val, **kwargs)\n                elements.append(element)",
     "            for val in value:\n                if is_ellipsis(val):\n                    element = val\n                else:\n                    element = schema.props.type.__accept__(self, value=val, **kwargs)\n                elements.append(element)\n            if isinstance(value, list) and len(value) > 1 and isinstance(value[-1], dict):\n                value[-1].setdefault(\"_substituted\", True)",
     "substitute mutates the caller's value (adds a key to the last dict of a list)")
-mut("c07-generator-memo", "C07", G, "    def visit_int(self, schema: IntSchema, **kwargs: Any) -> int:\n        if schema.props.value is not Nil:\n            return schema.props.value\n",
-    "    def visit_int(self, schema: IntSchema, **kwargs: Any) -> int:\n        if schema.props.value is not Nil:\n            return schema.props.value\n        if id(schema) in _memo:\n            return _memo[id(schema)]\n",
+mut("c07-generator-memo", "C07", G, "        return self._random.random_int(min_value, max_value)\n\n    def visit_float",
+    "        if id(schema) not in _memo:\n            _memo[id(schema)] = self._random.random_int(min_value, max_value)\n        return _memo[id(schema)]\n\n    def visit_float",
+    "int generation memoised by id(schema): a later fake() of the same object ignores its draws")
+mut("c07-validator-keeps-path", "C07", "d42/validation/_validator.py", "                nested_path = deepcopy(path)[key]\n                res = val.__accept__(self, value=value[key], path=nested_path, **kwargs)\n                result.add_errors(res.get_errors())\n            else:\n                if not is_optional:",
+    "                nested_path = path[key] if len(value) > 3 else deepcopy(path)[key]\n                res = val.__accept__(self, value=value[key], path=nested_path, **kwargs)\n                result.add_errors(res.get_errors())\n            else:\n                if not is_optional:",
+    "dict validation shares the PathHolder between siblings for dicts with more than 3 keys")
+mut("c07-substitutor-state", "C07", SUB, "    def visit_int(self, schema: IntSchema, *, value: Any = Nil, **kwargs: Any) -> IntSchema:\n        result = schema.__accept__(self._validator, value=value)",
+    "    def visit_int(self, schema: IntSchema, *, value: Any = Nil, **kwargs: Any) -> IntSchema:\n        if getattr(self, \"_last_int\", None) == value and value > 1000:\n            return schema\n        self._last_int = value\n        result = schema.__accept__(self._validator, value=value)",
+    "the module-level substitutor remembers the last int: substituting the same large int twice in a row returns the schema unpinned")
+mut("c07-from-native-keeps-dict", "C07", "d42/utils/_from_native.py", "        return DictSchema()({key: from_native(val) for key, val in value.items()})",
+    "        return DictSchema()({key: from_native(val) for key, val in value.items()}) if len(value) != 2 else _lazy(value)",
     "")
 
 PREAMBLES = {
+    "c07-from-native-keeps-dict": ("d42/utils/_from_native.py", "def from_native(value: Any) -> GenericSchema:", "class _LazyKeys(dict):\n    def __init__(self, src: Any) -> None:\n        super().__init__()\n        self._src = src\n\n    def _sync(self) -> None:\n        dict.clear(self)\n        for k, v in self._src.items():\n            dict.__setitem__(self, k, (from_native(v), False))\n\n    def items(self) -> Any:\n        self._sync()\n        return dict.items(self)\n\n    def keys(self) -> Any:\n        self._sync()\n        return dict.keys(self)\n\n    def __iter__(self) -> Any:\n        self._sync()\n        return dict.__iter__(self)\n\n    def __contains__(self, k: Any) -> bool:\n        self._sync()\n        return dict.__contains__(self, k)\n\n    def __getitem__(self, k: Any) -> Any:\n        self._sync()\n        return dict.__getitem__(self, k)\n\n    def __len__(self) -> int:\n        self._sync()\n        return dict.__len__(self)\n\n\ndef _lazy(value: Any) -> GenericSchema:\n    from d42.declaration.types import DictProps\n    return DictSchema(DictProps().update(keys=_LazyKeys(value)))\n\n\ndef from_native(value: Any) -> GenericSchema:"),
     "c17-own-rng": (RND, "import random\n", "import random\n_own = random.Random()\n"),
     "c17-regex-cache": (RG, "__all__ = (\"RegexGenerator\",)\n", "__all__ = (\"RegexGenerator\",)\n_seen = set()\n"),
-    "c07-validation-result-shared": ("d42/validation/_validation_result.py", "__all__ = (\"ValidationResult\",)\n", "__all__ = (\"ValidationResult\",)\n_SHARED: List[ValidationError] = []\n"),
     "c07-generator-memo": (G, "__all__ = (\"Generator\",)\n", "__all__ = (\"Generator\",)\n_memo: Dict[int, int] = {}\n"),
     "c07-dict-keeps-caller-dict": ("d42/declaration/types/_dict_schema.py", "class DictProps(Props):", "class _KeysView(dict):\n    def __init__(self, src):\n        self._src = src\n        super().__init__()\n\n    def _sync(self):\n        dict.clear(self)\n        for k, v in self._src.items():\n            dict.__setitem__(self, k, (v, False))\n\n    def items(self):\n        self._sync()\n        return dict.items(self)\n\n    def keys(self):\n        self._sync()\n        return dict.keys(self)\n\n    def __iter__(self):\n        self._sync()\n        return dict.__iter__(self)\n\n    def __contains__(self, k):\n        self._sync()\n        return dict.__contains__(self, k)\n\n    def __getitem__(self, k):\n        self._sync()\n        return dict.__getitem__(self, k)\n\n    def __len__(self):\n        self._sync()\n        return dict.__len__(self)\n\n\nclass DictProps(Props):"),
 }
 
-EXPECT_MISS = {"c01-any-drops-last", "c01-float-precision-off", "c01-dict-optional-wrong"}
+EXPECT_MISS = {"c01-any-drops-last", "c01-float-precision-off", "c01-dict-optional-wrong",
+               "c07-validator-keeps-path"}   # wrong but pure: C03 territory, not C07
 
 
 def run(ids, with_tests=False, verif="/verif", repo="/repo"):
